@@ -1,6 +1,7 @@
 """Translation-project generator, file printers (JSON / JSON5 / YAML), transport of decoded trees to the
 Lean driver, canonicalisation of pipeline results."""
 import json
+import re
 from . import gen
 
 LOCALE_POOL = ["en", "fr", "de", "en-US", "fr-CA", "ru", "ar", "ja", "pl", "cy", "es", "pt-BR"]
@@ -178,10 +179,12 @@ def gen_key_value(rng, plan, locale_is_default, all_paths, rec=None):
     return "?"
 
 
-def gen_fk_text(rng, targets, args_for):
-    """`$t(path, {args})` possibly surrounded by text"""
+def gen_fk_text(rng, targets, args_for, chosen=None):
+    """`$t(path, {args})` possibly surrounded by text; `chosen` receives the target path, its plan and the arguments"""
     path, tplan = rng.pick(targets)
     args = args_for(rng, tplan)
+    if chosen is not None:
+        chosen.update(path=path, plan=tplan, args=args)
     w = lambda: rng.pick(["", "", " "])
     if args is None:
         inner = f"$t({w()}{path}{w()})"
@@ -194,11 +197,14 @@ def gen_fk_text(rng, targets, args_for):
 
 def default_args(rng, tplan):
     if tplan.kind in ("ranges", "plural"):
-        r = rng.below(5)
+        r = rng.below(7)
         if r == 0:
             return None
-        if r == 1:
-            return {"count": rng.pick([0, 1, 2, 5, 21, -1, 1.5])}
+        if r in (1, 5, 6):
+            a = {"count": rng.pick([0, 1, 2, 5, 21, -1, 1.5])}
+            if r == 6:
+                a["x"] = "X{{ y }}"
+            return a
         if r == 2:
             return {"count": "{{ n }}"}
         if r == 3:
@@ -334,22 +340,105 @@ def gen_project(rng, opts=None):
                 tpath_targets = [((ns + ":" + p) if ns else p, tp) for p, tp in targets]
                 if ns is None and False:
                     pass
-                text = gen_fk_text(rng, tpath_targets, args_for)
+                chosen = {}
+                text = gen_fk_text(rng, tpath_targets, args_for, chosen)
                 for tp_path, tp in tpath_targets:
                     if tp_path in text:
                         tp.pinned = True
                 key = f"ref{i}"
-                plans.append((key, Plan("fk", text=text, vars=["z"])))
-                if rng.chance(1, 3):
-                    targets.append((key, Plan("string", vars=["z"])))   # chains
+                plans.append((key, Plan("fk", text=text, vars=["z"], target=chosen["path"], target_plan=chosen["plan"], ns=ns)))
+                if rng.chance(1, 2):
+                    # chains: a later reference may name this one, with arguments for the variables that the *inner* target
+                    # still has (they are reachable only through this reference)
+                    inner_vars = [v for v in (getattr(chosen["plan"], "vars", None) or []) if v not in (chosen["args"] or {})]
+                    targets.append((key, Plan("string", vars=["z"] + inner_vars)))
         all_plans[ns] = plans
     # effective locale order as the implementation will use it is computed by the config model
     meta = {}
     for ns in (namespaces or [None]):
         for l in sorted(set(locales)):
             files[(ns, l)] = gen_locale_tree(rng, all_plans[ns], l, l == default, opts, 0, meta, ns, ())
+    if opts.get("fk", True):
+        retarget_counts(rng, all_plans, files, default)
     return {"meta": meta, "plans": all_plans, "default": default, "locales": listed, "all_locales": sorted(set(locales)), "namespaces": namespaces,
             "inherits": inherits, "files": files, "extra_cfg": rng.chance(1, 4)}
+
+
+_NUM = re.compile(r"-?\d+(?:\.\d+)?")
+
+
+def range_bounds(tree):
+    """every number written in the count specifications of a range declaration (transport tree)"""
+    out = []
+
+    def spec(c):
+        if isinstance(c, str):
+            out.extend(_NUM.findall(c))
+        elif isinstance(c, dict) and ("u" in c or "i" in c):
+            out.append(str(c.get("u", c.get("i"))))
+        elif isinstance(c, dict) and "f" in c:
+            out.append(c["f"])
+        elif isinstance(c, dict) and "a" in c:
+            for x in c["a"]:
+                spec(x)
+    for item in (tree.get("a") or []) if isinstance(tree, dict) else []:
+        if isinstance(item, dict) and "a" in item:
+            for c in item["a"][1:]:
+                spec(c)
+        elif isinstance(item, dict) and "o" in item:
+            for k, v in item["o"]:
+                if k == "count":
+                    spec(v)
+    return out
+
+
+def transport_get(tree, path):
+    for k in path:
+        if not (isinstance(tree, dict) and "o" in tree):
+            return None
+        tree = next((v for kk, v in tree["o"] if kk == k), None)
+    return tree
+
+
+def transport_replace(tree, old, new):
+    if isinstance(tree, str):
+        return new if tree == old else tree
+    if isinstance(tree, dict) and "o" in tree:
+        return {"o": [[k, transport_replace(v, old, new)] for k, v in tree["o"]]}
+    return tree
+
+
+def retarget_counts(rng, all_plans, files, default):
+    """literal counts given to a range through `$t(.., {"count": n})` are moved onto / next to a bound of one of the target's
+    branches (as declared in the default locale) two times out of three: branch selection at the bounds is where it can go wrong"""
+    from fractions import Fraction
+    for ns, plans in all_plans.items():
+        for key, plan in plans:
+            if plan.kind != "fk" or getattr(plan.target_plan, "kind", None) != "ranges":
+                continue
+            m = re.search(r'"count": (-?\d+(?:\.\d+)?)([,}])', plan.text)
+            if not m or not rng.chance(2, 3):
+                continue
+            tpath = plan.target.split(":")[-1].split(".")
+            tns = plan.target.split(":")[0] if ":" in plan.target else ns
+            tv = transport_get(files.get((tns, default)), tpath)
+            bounds = range_bounds(tv) if tv is not None else []
+            if not bounds:
+                continue
+            b = rng.pick(bounds)
+            if plan.target_plan.ty in FLOAT_TYPES:
+                q = Fraction(b) + rng.pick([0, 0, 0, Fraction(1, 2), -Fraction(1, 2), Fraction(1, 4)])
+                new = "0.0" if q == 0 else repr(float(q))
+                if "e" in new or Fraction(new) != q:
+                    continue
+            else:
+                if "." in b:
+                    continue
+                new = str(int(b) + rng.pick([0, 0, 0, 1, -1]))
+            text2 = plan.text[:m.start(1)] + new + plan.text[m.end(1):]
+            for fk, tree in list(files.items()):
+                files[fk] = transport_replace(tree, plan.text, text2)
+            plan.text = text2
 
 
 def cargo_toml(p, rng=None):
